@@ -1012,6 +1012,78 @@ static ASMJIT_INLINE bool has_same_reg_type(const Reg* regs, size_t op_count) no
   return true;
 }
 
+Error query_rw_info(Arch arch, const BaseInst& inst, const Operand_* operands, size_t op_count, InstRWInfo* out) noexcept;
+
+// Forms given WITHOUT their implicit operands (`mul rcx`, `imul r8b`, `blendvpd xmm1, xmm2`) - the RW records are kept per
+// position of the full form, so the implicit operands of the matching signature are materialised (the signature fixes
+// their register), the full form is queried, and the entries of the explicit operands are copied back. Returns false if
+// `operands` is not such a short form (then the operands are used as they are).
+static ASMJIT_FAVOR_SIZE bool rw_query_short_form(Arch arch, const BaseInst& inst, const InstDB::CommonInfo& common_info, const Operand_* operands, size_t op_count, InstRWInfo* out, Error& err) noexcept {
+  InstDB::Mode mode = arch == Arch::kX86 ? InstDB::Mode::kX86 : InstDB::Mode::kX64;
+  Span<const InstDB::InstSignature> signatures = common_info.inst_signatures();
+
+  for (const InstDB::InstSignature& signature : signatures) {
+    if (signature.supports_mode(mode) && signature.op_count() == op_count) {
+      return false;
+    }
+  }
+
+  for (const InstDB::InstSignature& signature : signatures) {
+    uint32_t full_count = signature.op_count();
+    if (!signature.supports_mode(mode) || !signature.implicit_op_count() || full_count - signature.implicit_op_count() != op_count) {
+      continue;
+    }
+
+    Operand_ full[Globals::kMaxOpCount];
+    uint8_t explicit_index[Globals::kMaxOpCount];
+    uint32_t j = 0;
+
+    for (uint32_t r = 0; r < full_count; r++) {
+      const InstDB::OpSignature& op_sig = signature.op_signature(r);
+      if (!op_sig.is_implicit()) {
+        explicit_index[j] = uint8_t(r);
+        full[r] = operands[j++];
+        continue;
+      }
+
+      uint32_t id = Support::ctz(uint32_t(op_sig.reg_mask()) | 0x100u);
+      Gp native = mode == InstDB::Mode::kX64 ? Gp::make_r64(id) : Gp::make_r32(id);
+      if (op_sig.has_mem()) {
+        uint32_t size = op_sig.has_flag(InstDB::OpFlags::kMem64) ? 8u : op_sig.has_flag(InstDB::OpFlags::kMem128) ? 16u : op_sig.has_flag(InstDB::OpFlags::kMem512) ? 64u : 0u;
+        full[r] = Mem(native, 0, size);
+      }
+      else if (op_sig.has_flag(InstDB::OpFlags::kRegXmm)) { full[r] = Vec::make_v128(id); }
+      else if (op_sig.has_flag(InstDB::OpFlags::kRegGpq) && mode == InstDB::Mode::kX64) { full[r] = native; }
+      else if (op_sig.has_flag(InstDB::OpFlags::kRegGpd)) { full[r] = Gp::make_r32(id); }
+      else if (op_sig.has_flag(InstDB::OpFlags::kRegGpw)) { full[r] = Gp::make_r16(id); }
+      else if (op_sig.has_flag(InstDB::OpFlags::kRegGpbHi)) { full[r] = Gp::make_r8_hi(id); }
+      else { full[r] = Gp::make_r8(id); }
+    }
+
+    if (j != op_count || validate(mode, inst, full, full_count, ValidationFlags::kNone) != Error::kOk) {
+      continue;
+    }
+
+    InstRWInfo full_info;
+    err = query_rw_info(arch, inst, full, full_count, &full_info);
+    if (err == Error::kOk) {
+      *out = full_info;
+      out->_op_count = uint8_t(op_count);
+      for (j = 0; j < Globals::kMaxOpCount; j++) {
+        if (j < op_count) {
+          out->_operands[j] = full_info._operands[explicit_index[j]];
+        }
+        else {
+          out->_operands[j].reset();
+        }
+      }
+    }
+    return true;
+  }
+
+  return false;
+}
+
 Error query_rw_info(Arch arch, const BaseInst& inst, const Operand_* operands, size_t op_count, InstRWInfo* out) noexcept {
   // Only called when `arch` matches X86 family.
   ASMJIT_ASSERT(Environment::is_family_x86(arch));
@@ -1027,6 +1099,13 @@ Error query_rw_info(Arch arch, const BaseInst& inst, const Operand_* operands, s
   const InstDB::CommonInfo& common_info = InstDB::_inst_common_info_table[inst_info._common_info_index];
   const InstDB::AdditionalInfo& additional_info = InstDB::additional_info_table[inst_info._additional_info_index];
   const InstDB::RWFlagsInfoTable& rw_flags = InstDB::rw_flags_info_table[additional_info._rw_flags_index];
+
+  if (op_count < Globals::kMaxOpCount) {
+    Error short_form_err = Error::kOk;
+    if (rw_query_short_form(arch, inst, common_info, operands, op_count, out, short_form_err)) {
+      return short_form_err;
+    }
+  }
 
   // There are two data tables, one for `op_count == 2` and the second for
   // `op_count != 2`. There are two reasons for that:
